@@ -1113,4 +1113,47 @@ theorem push_data_tie (st : Store) (d : DataSess) (ts : Nat) (line : Bytes)
         simp [Rs.indexOf, DataSess.view, hlf, Option.mapM_some, Rs.checkedSub, Rs.okOr, hle, hlt, hbig, MAX_SMALL_TS_tie, bind_ok, pure_eq_ok,
           Rs.tryU16, h16, Rs.slice, hl, line_size_tie d.p hp2, add_ok h1, runPushData, applyWrites, appendTo_appendTo]
 
+/-! ### the open-time tail repair: `FileWithInlineMeta::new` -/
+
+theorem repair_incomplete_last_write_tie (d : Bytes) (p : Nat) (hp : p + 2 < 2^64) :
+    repair_incomplete_last_write d p = .ok (dropPartialLine p d, ()) := by
+  have hls : Impl.lineSize p ≠ 0 := by simp [Impl.lineSize]
+  have hle : d.length % Impl.lineSize p ≤ d.length := Nat.mod_le _ _
+  unfold repair_incomplete_last_write dropPartialLine
+  simp only [line_size_tie p hp, bind_ok, pure_eq_ok, Rs.rem, hls, if_false]
+  by_cases h0 : d.length % Impl.lineSize p > 0
+  · simp [h0, sub_ok hle, Rs.setLen, bind_ok]
+  · have : d.length % Impl.lineSize p = 0 := by omega
+    simp [this]
+
+theorem repaired_is_only_meta_tie (d : Bytes) (p : Nat) (hp : p < 2^60) :
+    repaired_is_only_meta d p = .ok (if d.length ≤ Impl.metaSize p then ([], true) else (d, false)) := by
+  unfold repaired_is_only_meta
+  simp only [metainfo_size_tie p hp, bind_ok, pure_eq_ok]
+  by_cases h : d.length ≤ Impl.metaSize p <;> simp [h, Rs.setLen]
+
+/-- **`FileWithInlineMeta::new` as translated from the current source is the model's `repairData`**: nothing on an
+empty file; else drop the partial last line, empty the file when no more than a section is left (`<=`), then the
+two stages that look for a torn section at the end - in this order, each ending the repair when it cut something.
+The labeled block with its `break`s is translated as a loop that runs once.  The two last stages are written with
+iterator adaptors outside the subset: their calls stand for the model's functions (tied by the correspondence) -/
+theorem file_new_tie (d : Bytes) (p : Nat) (hp : p < 2^60) :
+    FileWithInlineMeta_new d p = .ok (repairData p d, ⟨repairData p d, p⟩) := by
+  have hp2 : p + 2 < 2^64 := by omega
+  unfold FileWithInlineMeta_new repairData
+  by_cases h0 : d.length = 0
+  · have hd : d = [] := List.eq_nil_of_length_eq_zero h0
+    simp [hd, bind_ok, pure_eq_ok]
+  · have hd : d ≠ [] := by intro h; simp [h] at h0
+    simp only [h0, if_false, repair_incomplete_last_write_tie _ p hp2, repaired_is_only_meta_tie _ p hp, bind_ok, pure_eq_ok]
+    by_cases h1 : (dropPartialLine p d).length ≤ Impl.metaSize p
+    · simp [h1, hd, bind_ok, pure_eq_ok]
+    · cases h2 : removePartialMeta p (dropPartialLine p d) with
+      | some d2 => simp [h1, h2, hd, Rs.optStep, bind_ok, pure_eq_ok]
+      | none =>
+        cases h3 : removeStartOfMeta p (dropPartialLine p d) with
+        | some d3 => simp [h1, h2, h3, hd, Rs.optStep, bind_ok, pure_eq_ok]
+        | none => simp [h1, h2, h3, hd, Rs.optStep, bind_ok, pure_eq_ok]
+
+
 end BS.Gen
